@@ -13,6 +13,8 @@ import DadiVerif.Model.ModelPairs
    c15.nest <A> <B> <args>        -> ok 1|0
    c15.pairs                      -> ok <json [[group,[[A,B,[arg Expr…],nestOK 1|0],…]],…]>   (the hand table Model/ModelPairs.lean)
    c15.symmetric                  -> ok <json [[A,[arg Expr…],swapOK 1|0],…]>
+   c15.branchpairs                -> ok <json [[A,[argsA…],[path 1|0…],B,[argsB…],nestOKAt 1|0,[[op,lhs,rhs,outcome]…]],…]>
+   c15.wiring <model>             -> ok <wiringOK 1|0> <number of branches>   (symbolic run at the model's own parameters)
    c15.swap <A> <args>            -> ok 1|0
    <args>: `-` (empty) or comma separated: `name` (a parameter), `#n/d` or `#-n/d` (an exact literal).
    json: Expr = ["p",name] | ["t"] | ["lit",n,d] | ["sym",s] | ["neg",e] | [op,a,b] | ["call",f,e] | ["lam",b] | ["app",f,a] | ["tup",e…]
@@ -116,6 +118,21 @@ def handle (toks : List String) : Option String :=
   | ["c15.symmetric"] =>
       some ("ok " ++ arr (Pairs.symmetric.map fun p =>
         arr [qn p.name, arr (p.args.map jE), if swapOK table sigs swapRules12 p.name p.args then "1" else "0"]))
+  | ["c15.branchpairs"] =>
+      some ("ok " ++ arr (Pairs.branch.map fun p =>
+        let conds := match normalForm table sigs p.a p.argsA with
+          | some t => pathConds p.path t
+          | none => []
+        arr [qn p.a, arr (p.argsA.map jE), arr (p.path.map fun b => if b then "1" else "0"), qn p.b, arr (p.argsB.map jE),
+             (if nestOKAt table sigs p.a p.argsA p.path p.b p.argsB then "1" else "0"),
+             arr (conds.map fun (c, b) => arr [qn c.op, jE c.lhs, jE c.rhs, if b then "1" else "0"])]))
+  | ["c15.wiring", m] =>
+      match findModel table (encodeName m) with
+      | none => some "err unknown-model"
+      | some md =>
+        match symbolicRun table sigs md.name (md.paramNames.map .param) with
+        | some t => some s!"ok {if wiringOK (integrators sigs) t then 1 else 0} {branchCount t}"
+        | none => some "err stuck"
   | ["c15.nest", a, b, as] => do
       let as ← parseArgs as
       some (if nestOK table sigs (encodeName a) (encodeName b) as then "ok 1" else "ok 0")
